@@ -278,7 +278,7 @@ func c15Templates(r *rt.Rec, part, parts int, bounded literal.Builder) {
 	for i := 0; i <= len(full); i++ {
 		all = append(all, full[:i], full[:i]+"]")
 	}
-	subj := []string{"/u<a>", "", "/u<a", "u<a>", "_:b", "/u<a b>", "/u<a] /x>"}
+	subj := []string{"/u<a>", "", "/u<a", "u<a>", "_:b", "/u<a b>", "/u<a] /x>", "/u<a\tb>", "/u<\ta>", "/u<a\t\"p\"@[]\t/u<b>>"}
 	pred := []string{`"p"@[]`, `"p"@[2016-01-01T00:00:00Z]`, "", `"p"@[`, `p@[]`, `"p"`, `"p]\t/"@[]`}
 	obj := []string{"/u<b>", `"5"^^type:int64`, `"q"@[]`, "", `"x"^^type:foo`, `"a]\t/b"^^type:text`, `"[1 2]"^^type:blob`, `"[]"^^type:blob`, `""^^type:blob`, "_:c"}
 	seps := []string{"\t", " ", "", "\t\t", " \t "}
